@@ -75,6 +75,8 @@ def label_to_event(label):
         return dict(op="DbgMode", l=0, k="", a=a[0], b=0)
     if name == "VrbMode":
         return dict(op="VrbMode", l=0, k="", a=a[0], b=0)
+    if name == "CloseW":
+        return dict(op="CloseW", l=a[0], k="", a=a[1], b=0)
     if name == "MkHandler":
         return dict(op="MkHandler", l=a[0], k="", a=a[1], b=0)
     if name == "HEmit":
@@ -193,6 +195,8 @@ def random_behaviours(c, rng, count, depth, max_loggers):
             elif op == "LogF":
                 beh.append(dict(op="LogF", l=l, k="", a=rng.choice(sorted(c["log_sevs"])),
                                 b=rng.randint(1, len(c["fail_sets"]))))
+            elif op == "CloseW":
+                beh.append(dict(op="CloseW", l=l, k="", a=rng.choice(sorted(c["log_sevs"])), b=0))
             # ids are assigned by the worker in creation order; since some creations return an
             # existing logger, n is only an upper bound, so clamp receivers when executing
         res.append(beh)
@@ -213,7 +217,7 @@ def mc_only(ctx, c, invariants, properties, name="core-mc-only", timeout=1500):
                      ["INIT Init", "NEXT Next", "CHECK_DEADLOCK FALSE", "INVARIANTS " + " ".join(invariants)] +
                      (["PROPERTIES " + " ".join(properties)] if properties else []),
                      plain=dict(MaxLoggers=c["max_loggers"], InitLevel=c["init_level"], MaxList=c.get("max_list", 2),
-                                MaxArgs=c.get("max_args", 0), MaxSaved=c.get("max_saved", 2), MaxHandlers=c.get("max_handlers", 1)))
+                                MaxArgs=c.get("max_args", 0), MaxSaved=c.get("max_saved", 2), MaxHandlers=c.get("max_handlers", 1), FileBase=41))
     return ctx.model_check("MCB", "MCB.cfg", files={"MCB.tla": mc, "MCB.cfg": cfg}, name=name, timeout=timeout)
 
 
@@ -226,7 +230,7 @@ def run_core(ctx, c, invariants, properties, obs, rand_count, rand_depth, rand_l
                       "INVARIANTS " + " ".join(invariants)] +
                      (["PROPERTIES " + " ".join(properties)] if properties else []),
                      plain=dict(MaxLoggers=c["max_loggers"], InitLevel=c["init_level"], MaxList=c.get("max_list", 2),
-                                MaxArgs=c.get("max_args", 0), MaxSaved=c.get("max_saved", 2), MaxHandlers=c.get("max_handlers", 1)))
+                                MaxArgs=c.get("max_args", 0), MaxSaved=c.get("max_saved", 2), MaxHandlers=c.get("max_handlers", 1), FileBase=41))
     dot = os.path.join(ctx.scratch, "graph")
     r = ctx.model_check("MC", "MC.cfg", files={"MC.tla": mc, "MC.cfg": cfg},
                         extra=["-dump", "dot,actionlabels", dot] if dump else [], name="core-mc" + tag)
@@ -362,7 +366,7 @@ def validate_core_trace(ctx, c, trace_path, max_loggers, name="core-trace"):
     tc["TraceFile"] = "trace.ndjson"
     mct, cfg = gen_mc("MCT", "LoggCoreTrace", tc,
                       ["SPECIFICATION TSpec", "INVARIANTS Done TOneFormat TTreeOK", "CHECK_DEADLOCK FALSE"],
-                      plain=dict(MaxLoggers=max(max_loggers, c["max_loggers"]) + 64, InitLevel=c["init_level"], MaxList=1000, MaxArgs=0, MaxSaved=100000, MaxHandlers=100000))
+                      plain=dict(MaxLoggers=max(max_loggers, c["max_loggers"]) + 64, InitLevel=c["init_level"], MaxList=1000, MaxArgs=0, MaxSaved=100000, MaxHandlers=100000, FileBase=41))
     r = ctx.tlc("MCT", "MCT.cfg", files={"MCT.tla": mct, "MCT.cfg": cfg}, copy={trace_path: "trace.ndjson"},
                 workers=1, name=name, timeout=3000, heap="12g", allow_fail=True)
     if r.invariant_violated:
